@@ -70,27 +70,33 @@ func runAh(f []string) core.Outcome {
 		hs := up.VerifHostState()
 		return st{up.VerifActiveHealthy(), hs.ActivePasses, hs.ActiveFails}
 	}
-	waitChange := func(prev st) (st, bool) {
-		deadline := time.Now().Add(20 * time.Second)
-		for time.Now().Before(deadline) {
-			if cur := read(); cur != prev {
-				// a flip changes the flag and then resets the counters: let it settle
-				time.Sleep(2 * time.Millisecond)
-				return read(), true
-			}
-			time.Sleep(200 * time.Microsecond)
-		}
-		return prev, false
-	}
-	// the documented meaning, on the harness's own books: consecutive results
-	specHealthy, lastOK, run := true, true, 0
-	pth, fth := int(p), int(fl)
+	pth, fth := int64(p), int64(fl)
 	if pth < 1 {
 		pth = 1
 	}
 	if fth < 1 {
 		fth = 1
 	}
+	// waitSettled polls until the check of result ok has been fully accounted: the counter of
+	// that kind moved (or the flag flipped and both counters were reset), and no flip is pending
+	// (a healthy upstream with fails >= threshold / an unhealthy one with passes >= threshold is
+	// a state between countHealth…(1) and setHealthy)
+	waitSettled := func(prev st, ok bool) (st, bool) {
+		deadline := time.Now().Add(20 * time.Second)
+		for time.Now().Before(deadline) {
+			cur := read()
+			flipped := cur.healthy != prev.healthy
+			moved := (ok && cur.passes == prev.passes+1) || (!ok && cur.fails == prev.fails+1)
+			pending := (cur.healthy && cur.fails >= fth) || (!cur.healthy && cur.passes >= pth)
+			if (flipped && cur.passes == 0 && cur.fails == 0) || (!flipped && moved && !pending) {
+				return cur, true
+			}
+			time.Sleep(100 * time.Microsecond)
+		}
+		return prev, false
+	}
+	// the documented meaning, on the harness's own books: consecutive results
+	specHealthy, lastOK, run := true, true, 0
 	var outs []string
 	o := core.Outcome{Tags: []string{"ah"}}
 	prev := st{true, 0, 0}
@@ -100,7 +106,7 @@ func runAh(f []string) core.Outcome {
 			pass.Store(ok)
 			h.VerifActiveHealthCheckAll()
 		}
-		cur, changed := waitChange(prev)
+		cur, changed := waitSettled(prev, ok)
 		if !changed {
 			o.Failures = append(o.Failures, core.Failure{Class: "harness-active-check-timeout", What: fmt.Sprintf("check %d did not move the counters", i)})
 			break
@@ -116,10 +122,10 @@ func runAh(f []string) core.Outcome {
 		} else {
 			lastOK, run = ok, 1
 		}
-		if ok && run >= pth {
+		if ok && int64(run) >= pth {
 			specHealthy = true
 		}
-		if !ok && run >= fth {
+		if !ok && int64(run) >= fth {
 			specHealthy = false
 		}
 		if cur.healthy != specHealthy && len(o.Failures) == 0 {
